@@ -835,6 +835,9 @@ def gen_removal_scripts(tier, seed, variant):
         out.append(gen_map.make_removal_script(rng, f"rm{seed}_{i}"))
     for i in range(n // 2):
         out.append(gen_table.make_removal_script(rng, f"rt{seed}_{i}"))
+    # zero-sized and tiny elements through retain / extract_if / drain (deterministic)
+    for i, kind in enumerate(["table-zst", "table-zst64", "table-1", "table-3", "table-17"]):
+        out.append(gen_table.make_zst_removal_script(rng, f"rz{seed}_{i}", kind))
     return "".join(out)
 
 def check_c10(run):
@@ -869,6 +872,9 @@ def gen_capacity_scripts(tier, seed, variant):
         out.append(gen_map.make_shrink_script(rng, f"ks{seed}_{i}"))
     for i in range(n // 2):
         out.append(gen_map.make_rehash_script(rng, f"kr{seed}_{i}", table=(i % 3 == 2), fresh=rng.choice(["reserve", "tryreserve", "insert", "any"])))
+    # every element kind at every small bucket count, allocation_size read at each stage (deterministic)
+    for i, kind in enumerate(["table-1", "table-2", "table-3", "table-6", "table-12", "table-17", "table-18", "table-200", "table-a64", "table-zst", "table-zst64", "table-plain", "table-drop"]):
+        out.append(gen_table.make_layout_script(rng, f"kl{seed}_{i}", kind))
     return "".join(out)
 
 def check_c08(run):
